@@ -1,11 +1,25 @@
 #!/usr/bin/env python3
-"""Build every overlay harness once (warms the Go build cache) and regenerate Hy/Gen."""
+"""Build every overlay harness once (warms the Go build cache) and regenerate lean/Hy/Gen
+(constants from the compiled packages + every property's fact-extraction hooks)."""
+import glob
+import importlib
 import os
 import sys
 sys.path.insert(0, os.path.dirname(os.path.abspath(__file__)))
 from hv import common as C  # noqa: E402
 
 ok = True
+hooks = []
+for f in sorted(glob.glob(os.path.join(os.path.dirname(os.path.abspath(__file__)), "hv", "props", "C*.py"))):
+    m = importlib.import_module("hv.props." + os.path.basename(f)[:-3])
+    hooks += m.CFG.get("gen_hooks", [])
+for h in hooks:
+    try:
+        with C.Lock("lean"):
+            h()
+    except Exception as e:  # noqa
+        print("gen hook %s failed: %r" % (getattr(h, "__name__", h), e))
+        ok = False
 for m in C.MODULES:
     if not os.path.isdir(os.path.join(C.HARNESS, m, "verifh")):
         continue
